@@ -366,10 +366,31 @@ pub fn spaces(tier: Tier) -> Vec<Space<'static>> {
         judge_text(&x, acc);
     }));
     // giant counts in crash-isolated workers (allocation failure would abort the process)
+    // escapes with one digit position holding any byte value (not hex, not ASCII, a quote, a
+    // backslash): whatever the decoders make of such bytes, they do not panic
+    sp.push(Space::new("text-like bytes: a \\u escape with every byte value in each digit position", 3 * 4 * 256, |i, acc| {
+        let base: &[u8; 4] = [b"ffff", b"0041", b"d83d"][(i / 1024) as usize];
+        let pos = ((i / 256) % 4) as usize;
+        let b = (i % 256) as u8;
+        let mut digits = *base;
+        digits[pos] = b;
+        for (pre, post) in [(&b"\"\\u"[..], &b"\""[..]), (&b"[\"x\\u"[..], &b"\\udc00\"]"[..]), (&b"{\"\\u{"[..], &b"}\":1}"[..])] {
+            let mut x = pre.to_vec();
+            x.extend_from_slice(&digits);
+            x.extend_from_slice(post);
+            judge_bytes(&x, acc, false, &|| json!({"text": String::from_utf8_lossy(&x)}));
+            judge_text(&x, acc);
+        }
+    }));
+    // every \\uXXXX code unit, lower- and upper-case hex, through the text fallback
+    sp.push(Space::new("text fallback: every code-unit escape in lower- and upper-case hex", 65536, |cu, acc| {
+        judge_text(format!("\"\\u{:04x}\"", cu).as_bytes(), acc);
+        judge_text(format!("[\"x\\u{:04X}\",1]", cu).as_bytes(), acc);
+    }));
     // escape sequences by surrogate class, through the text fallback: every sequence of <= 3 escapes
     // over {first/last high surrogate, first/last low surrogate, BMP, U+FFFF, a short escape, a raw letter}
     {
-        const ESC: [&str; 9] = ["\\ud800", "\\uDBFF", "\\udc00", "\\uDFFF", "\\u0041", "\\uffff", "\\n", "a", "\\ud83d"];
+        const ESC: [&str; 12] = ["\\ud800", "\\uDBFF", "\\udc00", "\\uDFFF", "\\u0041", "\\uffff", "\\n", "a", "\\ud83d", "u", " ", "-"];
         let n = ESC.len() as u64;
         let total: u64 = (0..=3u32).map(|k| n.pow(k)).sum();
         sp.push(Space::new("text fallback: every sequence of <= 3 escapes by surrogate class, as value and as key", total, move |idx, acc| {
